@@ -2,6 +2,56 @@ use super::*;
 
 const MAX_RECURSION_DEPTH: usize = 64;
 
+/// The deepest nesting of `{`, `[` and `(` a document may have. Selection
+/// sets may nest `MAX_RECURSION_DEPTH` deep; the rest is left for input
+/// values and list types.
+const MAX_NESTING_DEPTH: usize = 4 * MAX_RECURSION_DEPTH;
+
+/// Reject documents that nest brackets deeper than `MAX_NESTING_DEPTH` before
+/// they reach the generated parser: it is recursive, so would be every later
+/// pass over the tree, and a stack overflow cannot be recovered from.
+///
+/// Brackets inside strings, block strings and comments do not count.
+fn check_nesting_depth(input: &str) -> Result<()> {
+    let bytes = input.as_bytes();
+    let mut depth = 0usize;
+    let mut i = 0;
+    while i < bytes.len() {
+        match bytes[i] {
+            b'{' | b'[' | b'(' => {
+                depth += 1;
+                if depth > MAX_NESTING_DEPTH {
+                    return Err(Error::RecursionLimitExceeded);
+                }
+            }
+            b'}' | b']' | b')' => depth = depth.saturating_sub(1),
+            b'#' => {
+                while i < bytes.len() && bytes[i] != b'\n' && bytes[i] != b'\r' {
+                    i += 1;
+                }
+                continue;
+            }
+            b'"' if bytes[i..].starts_with(b"\"\"\"") => {
+                i += 3;
+                while i < bytes.len() && !bytes[i..].starts_with(b"\"\"\"") {
+                    i += if bytes[i..].starts_with(b"\\\"\"\"") { 4 } else { 1 };
+                }
+                i += 3;
+                continue;
+            }
+            b'"' => {
+                i += 1;
+                while i < bytes.len() && !matches!(bytes[i], b'"' | b'\n' | b'\r') {
+                    i += if bytes[i] == b'\\' { 2 } else { 1 };
+                }
+            }
+            _ => {}
+        }
+        i += 1;
+    }
+    Ok(())
+}
+
 macro_rules! recursion_depth {
     ($remaining_depth:ident) => {{
         if $remaining_depth == 0 {
@@ -17,6 +67,7 @@ macro_rules! recursion_depth {
 ///
 /// Fails if the query is not a valid GraphQL document.
 pub fn parse_query<T: AsRef<str>>(input: T) -> Result<ExecutableDocument> {
+    check_nesting_depth(input.as_ref())?;
     let mut pc = PositionCalculator::new(input.as_ref());
 
     let pairs = GraphQLParser::parse(Rule::executable_document, input.as_ref())
@@ -451,5 +502,37 @@ mod tests {
         let query_overflow = format!("mutation {{ add(big: {}0000) }} ", i32::MAX);
         assert!(parse_query(query_ok).is_ok());
         assert!(parse_query(query_overflow).is_ok());
+    }
+}
+
+#[cfg(test)]
+mod nesting_tests {
+    use super::*;
+
+    #[test]
+    fn deeply_nested_values_are_rejected() {
+        let doc = |n: usize| format!("{{a(x:{}{})}}", "[".repeat(n), "]".repeat(n));
+        assert!(parse_query(doc(MAX_NESTING_DEPTH - 2)).is_ok());
+        assert!(matches!(
+            parse_query(doc(MAX_NESTING_DEPTH - 1)),
+            Err(Error::RecursionLimitExceeded)
+        ));
+        assert!(matches!(
+            parse_query(doc(100_000)),
+            Err(Error::RecursionLimitExceeded)
+        ));
+        assert!(matches!(
+            parse_query("{a".repeat(100_000)),
+            Err(Error::RecursionLimitExceeded)
+        ));
+    }
+
+    #[test]
+    fn brackets_in_strings_and_comments_do_not_nest() {
+        let many = "[".repeat(10 * MAX_NESTING_DEPTH);
+        assert!(parse_query(format!("{{a(x:\"{many}\")}}")).is_ok());
+        assert!(parse_query(format!("{{a(x:\"\\\"{many}\")}}")).is_ok());
+        assert!(parse_query(format!("{{a(x:\"\"\"{many}\\\"\"\"{many}\"\"\")}}")).is_ok());
+        assert!(parse_query(format!("{{a #{many}\n}}")).is_ok());
     }
 }
